@@ -395,6 +395,9 @@ class Stats(object):
 
 def finish(cov, st):
     """engine epilogue: record how often each violation class occurred"""
+    if st.samples:
+        # actual cases of this run (which ones are quoted rotates with VERIF_SEED), then the hand-picked illustrations
+        cov['samples'] = pick_samples(st.samples, 6) + list(cov.get('samples', []))[:3]
     vc = {k[5:]: v for k, v in st.n.items() if k.startswith('viol:')}
     if vc:
         cov['violation_classes'] = vc
